@@ -207,6 +207,16 @@ func Gen(r *rand.Rand, c GenCfg) []string {
 				}
 				break
 			}
+			if o := 1 - b; bs[o].bound && !bs[o].written && r.Intn(3) == 0 {
+				// Replay into the OTHER batch (same table, unrelated table, a table whose prefix extends or
+				// is a prefix of this one's, a plain store's batch), then usually write the destination
+				emit("brepto", bt, strconv.Itoa(o))
+				if r.Intn(2) == 0 {
+					emit("bwrite", strconv.Itoa(o))
+					bs[o].written = true
+				}
+				break
+			}
 			switch y := r.Intn(20); {
 			case y < 10:
 				emit("bput", bt, key(), val())
